@@ -24,9 +24,12 @@ def _r1(ctx):
     ctx.rule("R1", "uniform split: zero vector per port; += cycles / len(ports) at index_of(p) for every p")
     f = ctx.func("MachineModel.average_port_pressure")
     pl = pm.find('M_l = self._data["ports"]', f.node)
-    if not pl:
+    if pl:
+        plist = U(pl[0][1]["M_l"])
+    elif "self._data['ports']" in U(f.node):
+        plist = "self._data['ports']"
+    else:
         ctx.broken("R1: port list definition not found in average_port_pressure")
-    plist = U(pl[0][1]["M_l"])
     init = pm.find_any(["M_r = [0.0] * len(%s)" % plist, "M_r = [0.0 for M__ in %s]" % plist,
                         "M_r = [0.0 for M__ in range(len(%s))]" % plist, "M_r = len(%s) * [0.0]" % plist], f.node)
     ctx.check(len(init) == 1, "R1", "result = one 0.0 per model port", f.where(), "the result vector is not allocated as one zero "
@@ -54,10 +57,25 @@ def _r1(ctx):
     rets = [r for r in ast.walk(f.node) if isinstance(r, ast.Return)]
     ctx.check(len(rets) == 1 and U(rets[0].value) == res, "R1", "the vector is returned unchanged", f.where(), "return changed", f.qname, "return")
     sel = [(n, b) for n, b in pm.find("M_u = M_pp[M_opt]", f.node) if isinstance(b["M_opt"], ast.Name)]
+    if not sel:
+        # the selection as one branch of a conditional expression: u = pp[opt] if isinstance(pp, dict) else pp
+        for n in ast.walk(f.node):
+            if isinstance(n, ast.Assign) and isinstance(n.value, ast.IfExp):
+                for br in (n.value.body, n.value.orelse):
+                    b = pm.match("M_pp[M_opt]", br)
+                    if b is not None and isinstance(b["M_opt"], ast.Name):
+                        b["M_u"] = n.targets[0]
+                        sel.append((n, b))
+    if not sel and isinstance(l.iter, ast.IfExp):
+        for br in (l.iter.body, l.iter.orelse):
+            b = pm.match("M_pp[M_opt]", br)
+            if b is not None and isinstance(b["M_opt"], ast.Name):
+                b["M_u"] = l.iter
+                sel.append((l, b))
     a = f.node.args
     dflt = {x.arg: d for x, d in zip(a.args[len(a.args) - len(a.defaults):], a.defaults)}
     ok = bool(sel) and U(sel[0][1]["M_opt"]) in dflt and C.const_num(dflt[U(sel[0][1]["M_opt"])]) == 0 and U(l.iter) == U(sel[0][1]["M_u"])
-    ctx.check(ok, "R1", "of several alternatives, option 0 is costed by default", f.where(), "default alternative is not option 0 or the "
+    ctx.judge(ok, bool(sel), "R1", "of several alternatives, option 0 is costed by default", f.where(), "default alternative is not option 0 or the "
               "selected list is not the one iterated", f.qname, "default option")
 
 
